@@ -33,7 +33,9 @@ LEVEL_TEXT = ('Every one of ~100 construct templates (expressions: conditional, 
 LEVEL_NOTE = ('Nesting depth 2 for expressions (triples of the design are not enumerated); arity 2; programs using frames, locals(), '
               'exec/eval, zero-argument super() are outside the property; interpreter-generated exception messages are not '
               'compared (types only); identity of immutable values and function reprs never observed.  Template/context '
-              'combinations that CPython itself rejects with SyntaxError are not applicable and skipped (counted).  '
+              'combinations that CPython itself rejects with SyntaxError are not applicable and skipped (counted); functions '
+              'that Cython refuses with a clean compile-time error while CPython raises on every argument pair (certain '
+              'unbound locals, unknown names, indexing a C integer: by design) are outside the property and counted.  '
               'Trusted: CPython 3.12 as reference, gcc.')
 
 PRELUDE = 'from vlib.support import L\nfrom props._g6_rt import Obj, CMV\n'
@@ -421,6 +423,51 @@ def _keyfn(tag, inp, exp, got):
     return 'C01|%s|%s' % (tag.split('@')[0], cls)
 
 
+def _check_rejections(ctx, rejected, srcs):
+    """A function the compiler refuses is outside the property (C01 speaks about calls into the compiled module) iff the
+    refusal is a clean compile-time error AND CPython raises on EVERY argument pair (Cython reports some certain run-time
+    errors - unbound locals, unknown names, indexing a C integer - at compile time by design).  A compiler crash, a C
+    compiler error, or the refusal of a function that works under CPython is reported."""
+    import re
+    from vlib import support
+    g = {'__name__': 'c01_rej_ref'}
+    exec(compile(PRELUDE, '<c01-prelude>', 'exec'), g)
+    justified = []
+    unjustified = 0
+    for tags, stage, tail in rejected:
+        tag = tags[0]
+        src = srcs.get(tag)
+        crashed = stage != 'cython' or re.search(r'Compiler crash|Traceback|File ".*", line \d+, in ', tail or '') is not None
+        works = None
+        if src is not None and not crashed:
+            ns = dict(g)
+            exec(compile(src, '<c01-rej>', 'exec'), ns)
+            name = re.search(r'^def (f\d+)\(a, b\)|^(f\d+) = ', src, re.M)
+            fn = ns[name.group(1) or name.group(2)]
+            for x in VALUES:
+                for y in VALUES:
+                    support.reset_log()
+                    try:
+                        fn(eval(x), eval(y))
+                        works = (x, y)
+                        break
+                    except Exception:
+                        pass
+                if works:
+                    break
+            support.reset_log()
+        if not crashed and src is not None and works is None:
+            justified.append(tag)
+            continue
+        unjustified += 1
+        kind = 'compiler-crash' if crashed and stage == 'cython' else ('c-compile-error' if stage == 'cc' else 'rejects-working-code')
+        ctx.violation('C01|build-failure:%s|%s' % (kind, tag.split('@')[0]),
+                      '%s does not build (%s)%s: %s' % (tag, stage, '' if works is None else ' although CPython runs it for %r' % (works,),
+                                                       (tail or '')[-400:]),
+                      {'kind': 'build', 'source': PRELUDE + '\n' + (src or ''), 'ext': '.py', 'stage': stage, 'errors': tail})
+    return justified, unjustified
+
+
 def run(ctx):
     fam = family(ctx.tier)
     wd = ctx.workdir('c01')
@@ -444,7 +491,8 @@ def run(ctx):
     mods = [e2.Mod('c01_%d' % (i // PER_MODULE), PRELUDE, parts[i:i + PER_MODULE], inputs, ext='.py', use_log=True)
             for i in range(0, len(parts), PER_MODULE)]
     cc = ConfirmCtx(ctx, _keyfn)
-    st = e2.run_diff(cc, mods, keyfn=_keyfn, reach=REACH, timeout=1800)
+    st = e2.run_diff(cc, mods, keyfn=_keyfn, reach=REACH, timeout=1800, on_build_failure='reject')
+    justified, unjustified = _check_rejections(ctx, st['rejected'], dict(srcs))
     cov = {
         'evaluations': st['evaluations'], 'distinct_nontrivial': st['pairs'],
         'rule': 'a case is counted once per distinct (function, reference outcome incl. side-effect log) pair: argument pairs '
@@ -454,6 +502,7 @@ def run(ctx):
         'pairs_enumerated': len(EXPR) ** 2 * (1 if ctx.tier == 'quick' else len(CONTEXTS)),
         'not_applicable_in_context': skipped, 'argument_pairs': len(inputs['ab']),
         'mismatches': st['mismatches'], 'crashes': st['crashes'], 'build_failures': st['build_failures'],
+        'compile_time_rejections_justified': justified, 'compile_time_rejections_unjustified': unjustified,
         'crashes_not_reproduced_on_replay': cc.unreproduced,
         'reach': st.get('reach'), 'reach_gaps': st.get('reach_gaps'),
         'samples': [{'tag': t, 'function': s} for t, s in (srcs[3], srcs[len(EXPR) * 5 + 7], srcs[-100])],
